@@ -366,6 +366,29 @@ func runJobs(meta propMeta, tier string, only string) []*jobResult {
 						return
 					}
 				}
+				if err != nil && rerr != nil {
+					// the worker process died: if the panic was raised by package code in a goroutine the harness does not
+					// control (a server worker, the client's receive loop) that is a violation, not an engine error
+					if site, msg := crashSite(buf.String()); site != "" {
+						desc := ""
+						if ab, aerr := os.ReadFile(annf); aerr == nil && len(ab) > 0 {
+							desc = " while executing the case announced as: " + strings.SplitN(string(ab), "\n", 2)[0]
+						}
+						r := reg.NewResult(job.Part)
+						r.Evaluations = 1
+						r.Exhaustive = false
+						tr := buf.String()
+						if i := strings.Index(tr, "panic:"); i >= 0 {
+							tr = tr[i:]
+						}
+						if len(tr) > 3000 {
+							tr = tr[:3000]
+						}
+						r.Violate(meta.ID, "crash:"+site, "the process died of a panic raised by package code ("+msg+")"+desc+"\n"+tr, nil, nil)
+						shardRes[s] = r
+						return
+					}
+				}
 				if err != nil || rerr != nil {
 					tail := buf.String()
 					if len(tail) > 6000 {
@@ -480,6 +503,48 @@ func main() {
 }
 
 var mutantPatch string
+
+// crashSite parses a Go crash report: it returns file:line of the frame that raised the panic and the panic message when
+// that frame belongs to package sftp proper (not to an overlaid harness file, the scheduler or the worker).
+func crashSite(out string) (site, msg string) {
+	i := strings.Index(out, "\npanic: ")
+	if i < 0 {
+		if !strings.HasPrefix(out, "panic: ") {
+			return "", ""
+		}
+		i = -1
+	}
+	rest := out[i+1:]
+	lines := strings.Split(rest, "\n")
+	msg = strings.TrimPrefix(lines[0], "panic: ")
+	for j := 1; j < len(lines); j++ {
+		if !strings.HasPrefix(lines[j], "goroutine ") || !strings.Contains(lines[j], "[running]") {
+			continue
+		}
+		for k := j + 1; k+1 < len(lines); k += 2 {
+			fn, loc := lines[k], strings.TrimSpace(lines[k+1])
+			if fn == "" {
+				break
+			}
+			if strings.HasPrefix(fn, "panic(") || strings.HasPrefix(fn, "runtime.") || strings.HasPrefix(fn, "internal/") {
+				continue
+			}
+			if !strings.HasPrefix(fn, "github.com/pkg/sftp") {
+				return "", ""
+			}
+			if sp := strings.Index(loc, " "); sp > 0 {
+				loc = loc[:sp]
+			}
+			base := loc[strings.LastIndex(loc, "/")+1:]
+			if strings.HasPrefix(base, "zz_verif_") {
+				return "", ""
+			}
+			return base, msg
+		}
+		break
+	}
+	return "", ""
+}
 
 // crossCheck (--cross): every job that uses the happens-before state cache is run a second time
 // without it (plain deviation bounding, same bound); when both runs completed their bound, the sets
